@@ -14,7 +14,7 @@ cargo build --release --offline >/dev/null 2>&1 || { echo "selftest: build faile
 T="$ROOT/sim/target/selftest"
 rm -rf "$T"; mkdir -p "$T"
 rc=0
-for id in C03 C04 C05 C06 C09 C10 C11 C12 C16 C17 C18; do
+for id in C03 C04 C05 C06 C09 C10 C11 C12 C16 C17 C18 C20; do
     n=$RUNS
     [ "$id" = C12 ] && n=$((RUNS / 20 + 30))
     for w in 1 5 16; do
